@@ -117,7 +117,7 @@ pub fn run(ctx: &Ctx) -> CheckResult {
     // (d) deviation-bounded families for large periods
     let mut fam_runs = 0u64;
     if !res.out.failed() {
-        let periods: Vec<usize> = if th { P_BIG.to_vec() } else { vec![6, 7, 8, 13, 16, 31, 32, 33, 64, 100, 256, 257] };
+        let periods: Vec<usize> = if th { P_BIG.to_vec() } else { vec![6, 7, 8, 9, 13, 14, 16, 20, 22, 31, 32, 33, 64, 100, 256, 257] };
         let mut fams: Vec<Family> = vec![];
         for &n in &periods {
             let len = 3 * n + 3;
@@ -200,7 +200,7 @@ pub fn run(ctx: &Ctx) -> CheckResult {
         d_rough,
         d_bfs_n,
         if th { ", k=2 for n<=16," } else { "" },
-        if th { P_BIG.to_vec() } else { vec![6, 7, 8, 13, 16, 31, 32, 33, 64, 100, 256, 257] }
+        if th { P_BIG.to_vec() } else { vec![6, 7, 8, 9, 13, 14, 16, 20, 22, 31, 32, 33, 64, 100, 256, 257] }
     );
     res.extra.insert("sequence_tree_nodes".into(), json!(seq_nodes));
     res.extra.insert("bfs".into(), json!(bfs_rows));
